@@ -146,3 +146,94 @@ Proof.
   unfold trace_accepts. destruct (a_ok _); simpl; [|discriminate].
   destruct (a_need _); [discriminate|]. auto.
 Qed.
+
+(* ------------------------------------------------------------------------------------ *)
+(* The conversion of the timeout hint to the backends' milliseconds.                     *)
+Lemma ms_of_hint_min sec usec : 0 <= sec -> 0 <= usec < 1000000 ->
+  ms_of_hint sec usec = Z.min (sec * 1000 + usec / 1000 + 1) INT_MAX.
+Proof.
+  intros Hs Hu. unfold ms_of_hint, INT_MAX.
+  assert (Hq : 0 <= usec / 1000 <= 999).
+  { split; [apply Z.div_pos; lia | apply Z.lt_succ_r; apply Z.div_lt_upper_bound; lia]. }
+  change (2147483647 / 1000) with 2147483.
+  destruct (sec >? 2147483) eqn:E1.
+  - apply Z.gtb_lt in E1. lia.
+  - destruct (sec * 1000 + usec / 1000 + 1 >? 2147483647) eqn:E2.
+    + apply Z.gtb_lt in E2. lia.
+    + assert (~ (2147483647 < sec * 1000 + usec / 1000 + 1)) by (rewrite <- Z.gtb_lt; congruence). lia.
+Qed.
+
+(* never the "no timeout" value 0, always representable as an int *)
+Lemma ms_of_hint_usable sec usec : 0 <= sec -> 0 <= usec < 1000000 ->
+  wait_ms_ok (Some (ms_of_hint sec usec)) = true.
+Proof.
+  intros Hs Hu. rewrite ms_of_hint_min by assumption. unfold wait_ms_ok, INT_MAX.
+  assert (0 <= usec / 1000) by (apply Z.div_pos; lia).
+  apply andb_true_intro; split; [apply Z.ltb_lt | apply Z.leb_le]; lia.
+Qed.
+
+(* the wait ends strictly after the hint and at most one millisecond later, unless the hint
+   is beyond what an int of milliseconds can express (then the thread wakes early, which is
+   harmless: the timeout is recomputed on every iteration) *)
+Lemma ms_of_hint_covers sec usec : 0 <= sec -> 0 <= usec < 1000000 ->
+  let ms := ms_of_hint sec usec in
+  let hint_us := sec * 1000000 + usec in
+  (ms < INT_MAX -> hint_us < ms * 1000 <= hint_us + 1000) /\
+  (ms = INT_MAX -> INT_MAX * 1000 <= hint_us + 1000).
+Proof.
+  intros Hs Hu ms hint_us. subst ms hint_us. rewrite ms_of_hint_min by assumption. unfold INT_MAX.
+  pose proof (Z.div_mod usec 1000 ltac:(lia)) as Hdm.
+  pose proof (Z.mod_pos_bound usec 1000 ltac:(lia)) as Hm.
+  set (q := usec / 1000) in *. set (r := usec mod 1000) in *. clearbody q r.
+  split; intros H; lia.
+Qed.
+
+(* the model's abstract wait_until is this conversion applied to the remaining time (in whole
+   milliseconds) to the earliest deadline *)
+Lemma wait_until_is_conversion now l m : min_dl l = Some m ->
+  let rem := Z.max 0 (m - now) in
+  wait_until now l = Some (now + ms_of_hint (rem / 1000) ((rem mod 1000) * 1000)).
+Proof.
+  intros Hm rem. unfold wait_until. rewrite Hm. f_equal.
+  assert (Hr : 0 <= rem) by (subst rem; lia).
+  pose proof (Z.div_mod rem 1000 ltac:(lia)) as Hdm.
+  pose proof (Z.mod_pos_bound rem 1000 ltac:(lia)) as Hmb.
+  rewrite ms_of_hint_min; [| apply Z.div_pos; lia | lia].
+  rewrite Z.div_mul by lia. unfold INT_MAX. subst rem. lia.
+Qed.
+
+(* acceptor: a trace whose conversions are accepted contains no wait with timeout 0 / above
+   INT_MAX, and every wait that follows a logged hint used exactly ms_of_hint *)
+Lemma acc_conv_step base tol a e : a_conv (acc_step base tol a e) = true -> a_conv a = true.
+Proof.
+  destruct e as [t|t|t ms|t|sec usec]; simpl.
+  - destruct (a_blocked a) as [[u|]|]; simpl; auto. destruct (_ <? _); simpl; auto.
+  - auto.
+  - intros H. apply andb_prop in H. destruct H as [H _]. apply andb_prop in H. apply H.
+  - destruct (a_need a); simpl; auto.
+  - auto.
+Qed.
+
+Lemma acc_conv_run base tol tr a : a_conv (fold_left (acc_step base tol) tr a) = true -> a_conv a = true.
+Proof.
+  revert a; induction tr as [|e r IH]; simpl; intros a H; [exact H|].
+  apply (acc_conv_step base tol a e). apply IH. exact H.
+Qed.
+
+Lemma trace_conversion_waits tr pre t ms post :
+  trace_conversion_ok tr = true -> tr = pre ++ TWait t ms :: post -> wait_ms_ok ms = true.
+Proof.
+  unfold trace_conversion_ok, acc_run. intros H ->.
+  rewrite fold_left_app in H. simpl in H. apply acc_conv_run in H. simpl in H.
+  apply andb_prop in H. destruct H as [H _]. apply andb_prop in H. apply H.
+Qed.
+
+Lemma trace_conversion_hinted tr pre sec usec t m post :
+  trace_conversion_ok tr = true -> tr = pre ++ THint sec usec :: TWait t (Some m) :: post ->
+  m = ms_of_hint sec usec.
+Proof.
+  unfold trace_conversion_ok, acc_run. intros H ->.
+  rewrite fold_left_app in H. cbn [fold_left] in H. apply acc_conv_run in H.
+  cbn [acc_step a_hint a_conv] in H.
+  apply andb_prop in H. destruct H as [_ H]. apply Z.eqb_eq in H. exact H.
+Qed.
